@@ -75,7 +75,8 @@ Thorough == Tier = "thorough"
 Pick(i) == i % NParts = Part
 
 DevNames == {"Float32EncodedAsInt", "NarrowScalarRaises", "ArrayDtypeLost", "EmptyArrayShapeLost",
-             "RatioZeroUpdatesRaises", "ChoiceAccumOrderLost", "CurrentRepNotSerialized"}
+             "RatioZeroUpdatesRaises", "ChoiceAccumOrderLost", "CurrentRepNotSerialized",
+             "NpBoolRaises", "FileNameFailsForNonVectorArray"}
 Dev0     == [f \in DevNames |-> FALSE]
 Only(f)  == [g \in DevNames |-> g = f]
 
@@ -90,17 +91,21 @@ List(items)  == [t |-> "List", items |-> items]
 SetV(elems)  == [t |-> "Set", elems |-> elems]
 Arr(dt, sh, data) == [t |-> "Array", dtype |-> dt, shape |-> sh, data |-> data]
 IsNum(v)     == v.t \in IntTypes \cup FloatTypes
+\* flags: Python bool and numpy.bool_ (n = 1 True, n = 0 False); a bool stays a bool (JSON true / false)
+BoolTypes    == {"PyBool", "NpBool"}
+IsBool(v)    == v.t \in BoolTypes
 \* Float values beyond the rationals: d = 0 is an INFINITY (n = 1: +inf, n = -1: -inf), n = 0 with d = -1 is -0.0.
 \* NaN is excluded from the property (NaN != NaN: an object holding a NaN is not even equal to itself).
 IsInf(a)    == a.d = 0
 NegZero(a)  == a.n = 0 /\ a.d < 0
-Kind(v)      == IF v.t \in IntTypes THEN "int" ELSE IF v.t \in FloatTypes THEN "float" ELSE v.t
+Kind(v)      == IF v.t \in IntTypes THEN "int" ELSE IF v.t \in FloatTypes THEN "float"
+                ELSE IF v.t \in BoolTypes THEN "bool" ELSE v.t
 IntDtypes    == {"int8", "int16", "int32", "int64", "uint8", "uint16", "uint32", "uint64"}
-DtKind(dt)   == IF dt \in IntDtypes THEN "int" ELSE "float"
+DtKind(dt)   == IF dt \in IntDtypes THEN "int" ELSE IF dt = "bool" THEN "bool" ELSE "float"
 ScalarOfDtype(dt) == CASE dt = "int8" -> "NpInt8" [] dt = "int16" -> "NpInt16" [] dt = "int32" -> "NpInt32"
                        [] dt = "int64" -> "NpInt64" [] dt = "uint8" -> "NpUInt8" [] dt = "uint16" -> "NpUInt16"
                        [] dt = "uint32" -> "NpUInt32" [] dt = "uint64" -> "NpUInt64" [] dt = "float16" -> "NpFloat16"
-                       [] dt = "float32" -> "NpFloat32" [] dt = "float64" -> "NpFloat64"
+                       [] dt = "float32" -> "NpFloat32" [] dt = "float64" -> "NpFloat64" [] dt = "bool" -> "NpBool"
 
 RECURSIVE Prod(_)
 Prod(sh) == IF sh = <<>> THEN 1 ELSE Head(sh) * Prod(Tail(sh))
@@ -132,13 +137,15 @@ Raises(t) == CASE t.j = "raise" -> TRUE
 RECURSIVE Nest(_, _, _)
 Nest(data, sh, kind) ==            \* ndarray.tolist() for a non-empty shape tuple
   IF Len(sh) = 1
-  THEN JList([i \in 1..sh[1] |-> JNum(kind, data[i][1], data[i][2])])
+  THEN JList([i \in 1..sh[1] |-> IF kind = "bool" THEN JBool(data[i][1] = 1) ELSE JNum(kind, data[i][1], data[i][2])])
   ELSE LET rest == Tail(sh)   sz == Prod(rest)
        IN  JList([i \in 1..sh[1] |-> Nest(SubSeq(data, (i - 1) * sz + 1, i * sz), rest, kind)])
 
 EncScalar(v, D) ==
   CASE v.t = "Str"  -> JStr(v.s)
     [] v.t = "None" -> JNull
+    [] v.t = "PyBool" -> JBool(v.n = 1)
+    [] v.t = "NpBool" -> IF D.NpBoolRaises THEN JRaise("TypeError") ELSE JBool(v.n = 1)
     [] v.t \in IntTypes ->
          IF D.NarrowScalarRaises /\ v.t \notin EncodedIntTypes THEN JRaise("TypeError") ELSE JNum("int", v.n, 1)
     [] v.t \in {"PyFloat", "NpFloat64"} -> JNum("float", v.n, v.d)     \* np.float64 is a Python float
@@ -167,7 +174,8 @@ InferShape(t) == IF t.j # "list" THEN <<>>
 
 DecArray(t, D) ==
   LET lv     == Leaves(Get(t, "data"))
-      infDt  == IF lv # <<>> /\ \A i \in 1..Len(lv) : lv[i].j = "int" THEN "int64" ELSE "float64"
+      infDt  == IF lv # <<>> /\ \A i \in 1..Len(lv) : lv[i].j = "int" THEN "int64"
+                ELSE IF lv # <<>> /\ \A i \in 1..Len(lv) : lv[i].j = "bool" THEN "bool" ELSE "float64"
       shp    == Get(t, "shape").items
   IN  Arr(IF D.ArrayDtypeLost THEN infDt ELSE Get(t, "dtype").s,
           IF D.EmptyArrayShapeLost THEN InferShape(Get(t, "data")) ELSE [i \in 1..Len(shp) |-> shp[i].n],
@@ -177,6 +185,7 @@ DecScalar(t) == CASE t.j = "int" -> Num("PyInt", t.n, 1)
                   [] t.j = "float" -> Num("PyFloat", t.n, t.d)
                   [] t.j = "str" -> Str(t.s)
                   [] t.j = "null" -> NoneV
+                  [] t.j = "bool" -> Num("PyBool", t.n, 1)
 
 SeqOfSet(S) == LET RECURSIVE H(_)
                    H(T) == IF T = {} THEN <<>> ELSE LET x == CHOOSE y \in T : TRUE IN <<x>> \o H(T \ {x})
@@ -196,6 +205,7 @@ NumEq(a, b) == IF IsInf(a) \/ IsInf(b) THEN a.d = b.d /\ a.n = b.n ELSE a.n * b.
 RECURSIVE LibEq(_, _)
 LibEq(a, b) ==
   IF IsNum(a) /\ IsNum(b) THEN NumEq(a, b)
+  ELSE IF IsBool(a) /\ IsBool(b) THEN a.n = b.n
   ELSE IF a.t # b.t THEN FALSE
   ELSE CASE a.t = "Str"   -> a.s = b.s
          [] a.t = "None"  -> TRUE
@@ -208,6 +218,7 @@ LibEq(a, b) ==
 RECURSIVE Faithful(_, _)
 Faithful(a, b) ==
   IF IsNum(a) /\ IsNum(b) THEN NumEq(a, b) /\ Kind(a) = Kind(b) /\ NegZero(a) = NegZero(b)
+  ELSE IF IsBool(a) /\ IsBool(b) THEN a.n = b.n
   ELSE IF a.t # b.t THEN FALSE
   ELSE CASE a.t = "Str"   -> a.s = b.s
          [] a.t = "None"  -> TRUE
@@ -220,7 +231,7 @@ Faithful(a, b) ==
 
 (* ------------------------------------ SimulationParameters ------------------------------------ *)
 \* parameter names used by the cases, in ALPHABETICAL order (the library sorts the unpacked names)
-NameOrder == <<"arr", "lst", "num", "rep_max", "set", "str">>
+NameOrder == <<"a2", "arr", "flag", "flt", "lst", "non", "num", "rep_max", "set", "str">>
 MkP(params, unpacked, index, parent) == [params |-> params, unpacked |-> unpacked, index |-> index, parent |-> parent]
 PV(name, val) == [name |-> name, val |-> val]
 Names(P)   == {P.params[i].name : i \in 1..Len(P.params)}
@@ -433,21 +444,37 @@ RenderArray(v) ==
       st == RSub(v.data[2], v.data[1])
   IN  "[" \o (IF Len(v.data) < 4 THEN JoinComma([i \in 1..Len(v.data) |-> el(i)])
               ELSE el(1) \o "_(" \o RenderNum(kd, st[1], st[2]) \o ")_" \o el(Len(v.data))) \o "]"
-Renderable(v) == IF v.t = "Str" THEN TRUE ELSE IF IsNum(v) THEN TRUE
+Renderable(v) == IF v.t = "Str" THEN TRUE ELSE IF IsNum(v) \/ IsBool(v) THEN TRUE
                  ELSE IF v.t = "Array" /\ Len(v.shape) = 1 /\ Len(v.data) >= 1 /\ \A i \in 1..Len(v.data) : v.data[i][2] > 0
                       THEN (IF Len(v.data) < 4 THEN TRUE ELSE IsAP(v.data))
                       ELSE FALSE
+\* values whose text the specification does not spell out (str() of a list / set / None, the mixed-range text of a
+\* vector that is no progression): a template naming one gets a (rel) name - deterministic, the file that exists,
+\* loads back - instead of an exact string
+RelRenderable(v) == IF v.t \in {"List", "Set", "None"} THEN TRUE
+                    ELSE v.t = "Array" /\ Len(v.shape) = 1 /\ Len(v.data) >= 1 /\ \A i \in 1..Len(v.data) : v.data[i][2] > 0
 Render(v) == IF v.t = "Str" THEN v.s
+             ELSE IF IsBool(v) THEN (IF v.n = 1 THEN "True" ELSE "False")
              ELSE IF v.t = "Array" THEN RenderArray(v)
              ELSE IF Hyp.FileNameRounds /\ v.d > 0 THEN RenderNum("int", Trunc(v.n, v.d), 1)
              ELSE RenderNum(Kind(v), v.n, v.d)
 RECURSIVE TemplateText(_)
 TemplateText(tk) == IF tk = <<>> THEN ""
                     ELSE (IF Head(tk).k = "lit" THEN Head(tk).raw ELSE "{" \o Head(tk).s \o "}") \o TemplateText(Tail(tk))
-RECURSIVE FileName(_, _)
-FileName(tk, P) == IF tk = <<>> THEN ""
-                   ELSE (IF Head(tk).k = "lit" THEN Head(tk).s ELSE Render(Val(P, Head(tk).s))) \o FileName(Tail(tk), P)
-TemplateOk(tk, P) == \A i \in 1..Len(tk) : tk[i].k = "par" => (tk[i].s \in Names(P) /\ Renderable(Val(P, tk[i].s)))
+RECURSIVE FileNameFilled(_, _)
+FileNameFilled(tk, P) == IF tk = <<>> THEN ""
+                   ELSE (IF Head(tk).k = "lit" THEN Head(tk).s ELSE Render(Val(P, Head(tk).s))) \o FileNameFilled(Tail(tk), P)
+\* a template naming a parameter that does not exist is used AS IT IS (the results must not be lost)
+NamesAbsent(tk, P) == \E i \in 1..Len(tk) : tk[i].k = "par" /\ tk[i].s \notin Names(P)
+FileName(tk, P) == IF NamesAbsent(tk, P) THEN TemplateText(tk) ELSE FileNameFilled(tk, P)
+TemplateOk(tk, P) == IF NamesAbsent(tk, P) THEN TRUE
+                     ELSE \A i \in 1..Len(tk) : tk[i].k = "par" =>
+                             (IF Renderable(Val(P, tk[i].s)) THEN TRUE ELSE RelRenderable(Val(P, tk[i].s)))
+RelName(tk, P)    == ~NamesAbsent(tk, P) /\ \E i \in 1..Len(tk) : tk[i].k = "par" /\ ~Renderable(Val(P, tk[i].s))
+\* every array among the parameters is formatted when a name is built, named by the template or not: the name must
+\* exist whatever their shape (the code as found raises for arrays that are not non-empty vectors)
+HasNonVector(P) == \E i \in 1..Len(P.params) : P.params[i].val.t = "Array" /\
+                      (Len(P.params[i].val.shape) # 1 \/ Prod(P.params[i].val.shape) = 0)
 WithExt(tk, ext) == IF ext = "" THEN tk \o <<Lit(".pickle")>> ELSE tk \o <<Lit(ext)>>
 
 (* ==================================== case pools ================================================ *)
@@ -469,12 +496,14 @@ ScalarPool ==
     Num("PyFloat", 1, 0), Num("PyFloat", -1, 0), Num("NpFloat64", -1, 0), Num("NpFloat32", 1, 0), Num("NpFloat16", -1, 0),
     Num("PyFloat", 0, -1), Num("NpFloat32", 0, -1),
     \* strings that look like format fields: the value of a parameter is DATA, never a template
-    Str("c{num}"), Str("set{{A}}"), Str("{0}"), Str("a b%s"), Str("}{")>>
+    Str("c{num}"), Str("set{{A}}"), Str("{0}"), Str("a b%s"), Str("}{"),
+    \* flags
+    Num("PyBool", 1, 1), Num("PyBool", 0, 1), Num("NpBool", 1, 1), Num("NpBool", 0, 1)>>
 
 \* list elements (mixed types; 1.5 appears as Python, float32 and float64 value)
 E1q == <<Num("PyInt", 1, 1), Num("PyFloat", 3, 2), Num("NpInt32", -3, 1), Num("NpInt64", 7, 1),
          Num("NpFloat32", 3, 2), Num("NpFloat64", -1, 4), Str("x"), Num("PyFloat", 2, 1), Num("NpFloat32", -1, 0),
-         Str("{x}")>>
+         Str("{x}"), Num("NpBool", 0, 1)>>
 E1t == E1q \o <<Num("NpInt8", 7, 1), Num("NpUInt16", 7, 1), Num("NpFloat16", 3, 2), Num("NpFloat32", 2, 1),
                 Num("PyFloat", 1, 10), Str("")>>
 E1  == IF Thorough THEN E1t ELSE E1q
@@ -510,14 +539,15 @@ DataFloatInt(len) == [i \in 1..len |-> <<i - 2, 1>>]                  \* -1.0 0.
 ShapesQ == <<<<0>>, <<1>>, <<3>>, <<1, 1>>, <<2, 2>>, <<2, 3>>, <<0, 2>>, <<2, 0>>>>
 ShapesT == ShapesQ \o <<<<5>>, <<3, 1>>, <<2, 1, 2>>, <<0, 0>>, <<1, 0, 2>>>>
 Shapes  == IF Thorough THEN ShapesT ELSE ShapesQ
-DtypesQ == <<"int32", "int64", "float32", "float64", "int8", "uint16", "float16">>
+DtypesQ == <<"int32", "int64", "float32", "float64", "int8", "uint16", "float16", "bool">>
 DtypesT == DtypesQ \o <<"int16", "uint8", "uint32", "uint64">>
 Dtypes  == IF Thorough THEN DtypesT ELSE DtypesQ
 ArraysOf(dt) ==
   LET signed == dt \in {"int8", "int16", "int32", "int64"}
   IN  Concat([s \in 1..Len(Shapes) |->
         LET sh == Shapes[s]  len == Prod(sh)
-        IN  IF DtKind(dt) = "int"
+        IN  IF dt = "bool" THEN <<Arr(dt, sh, [i \in 1..len |-> <<(i * i) % 2, 1>>])>>     \* True False True ...
+            ELSE IF DtKind(dt) = "int"
             THEN <<Arr(dt, sh, DataInt(len))>> \o (IF signed /\ len > 0 THEN <<Arr(dt, sh, DataIntNeg(len))>> ELSE <<>>)
             ELSE <<Arr(dt, sh, DataFloat(len))>>
                  \o (IF len > 0 THEN <<Arr(dt, sh, DataFloatInt(len)), Arr(dt, sh, DataFloatInf(len))>> ELSE <<>>)])
@@ -565,11 +595,22 @@ PBase ==
        PV("lst", List(<<Num("PyFloat", -1, 0), Num("PyInt", 0, 1), Num("NpFloat32", 1, 0)>>)), PV("str", Str("ab"))>>,
      \* strings that look like format fields, one naming another parameter
      <<PV("str", Str("c{num}")), PV("num", Num("PyInt", 0, 1)), PV("lst", List(<<Str("{0}"), Str("set{{A}}")>>)),
-       PV("arr", Arr("int64", <<2>>, DataInt(2)))>> >>
-PExtra ==
-  << <<PV("arr", Arr("float16", <<2, 1, 2>>, DataFloat(4))), PV("lst", List(<<List(<<>>), List(<<Num("NpUInt8", 200, 1)>>)>>)),
+       PV("arr", Arr("int64", <<2>>, DataInt(2)))>>,
+     \* a 3-D array (children are 2-D arrays), nested empty lists, a narrow float, the empty string
+     <<PV("arr", Arr("float16", <<2, 1, 2>>, DataFloat(4))), PV("lst", List(<<List(<<>>), List(<<Num("NpUInt8", 200, 1)>>)>>)),
        PV("num", Num("NpFloat16", -1, 4)), PV("str", Str(""))>>,
-     <<PV("arr", Arr("uint16", <<3>>, DataInt(3))), PV("num", Num("NpUInt64", 7, 1)),
+     \* zero-length arrays (1-D and 2-D) and a flag
+     <<PV("num", Num("PyInt", 3, 1)), PV("str", Str("ab")), PV("arr", Arr("float64", <<0>>, <<>>)),
+       PV("a2", Arr("int64", <<2, 0>>, <<>>)), PV("flag", Num("NpBool", 1, 1))>> >>
+\* a vector that is a prefix + a progression + a suffix (mixed range text), a list, a set, None (file names only)
+PMixed ==
+     <<PV("num", Num("PyInt", 1, 1)), PV("str", Str("ab")),
+       PV("arr", Arr("int64", <<12>>, <<<<1, 1>>, <<2, 1>>, <<3, 1>>, <<5, 1>>, <<10, 1>>, <<15, 1>>, <<20, 1>>, <<25, 1>>,
+                                        <<30, 1>>, <<35, 1>>, <<40, 1>>, <<100, 1>>>>)),
+       PV("lst", List(<<Num("PyInt", 1, 1), Num("PyFloat", 3, 2), Str("x")>>)), PV("set", SetV({Num("PyInt", 1, 1)})),
+       PV("non", NoneV), PV("flt", Arr("float64", <<4>>, <<<<1, 1>>, <<2, 1>>, <<4, 1>>, <<8, 1>>>>))>>
+PExtra ==
+  << <<PV("arr", Arr("uint16", <<3>>, DataInt(3))), PV("num", Num("NpUInt64", 7, 1)),
        PV("set", SetV({Num("NpFloat32", 3, 2), Num("NpInt8", -3, 1), Str("b")})), PV("rep_max", Num("NpInt32", 7, 1))>>,
      <<>> >>
 PContents == IF Thorough THEN PBase \o PExtra ELSE PBase
@@ -588,7 +629,8 @@ RatioAlpha == <<UR(Num("PyInt", 1, 1), Num("PyInt", 4, 1)), UR(Num("PyInt", 1, 1
                 UR(Num("PyFloat", 1, 0), Num("PyInt", 4, 1))>>
 MiscAlpha == <<U(Num("PyInt", 3, 1)), U(Str("some string")), U(SetV({Num("PyInt", 1, 1), Num("PyFloat", 5, 2)})),
                U(List(<<Num("NpFloat32", 3, 2), Str("x")>>)), U(Num("NpFloat32", 3, 2)), U(Num("PyFloat", 2, 1)),
-               U(Str("")), U(NoneV), U(List(<<>>)), U(Num("PyInt", 0, 1)), U(Num("NpFloat64", -1, 0)), U(Str("v{num}"))>>
+               U(Str("")), U(NoneV), U(List(<<>>)), U(Num("PyInt", 0, 1)), U(Num("NpFloat64", -1, 0)), U(Str("v{num}")),
+               U(Num("PyBool", 0, 1)), U(Num("NpBool", 1, 1))>>
 ChoiceAlpha == <<U(Num("PyInt", 2, 1)), U(Num("PyInt", 0, 1)), U(Num("NpInt64", 1, 1)), U(Num("NpInt32", 2, 1))>>
 NarrowAlpha == <<U(Num("NpInt8", 7, 1)), U(Num("NpUInt16", 7, 1)), U(Num("NpFloat16", 3, 2))>>
 AlphaOf(ty) == CASE ty = SUMT -> SumAlpha [] ty = RATIOT -> RatioAlpha [] ty = MISCT -> MiscAlpha [] ty = CHOICET -> ChoiceAlpha
@@ -625,11 +667,18 @@ MergeHists(ty, acc) ==
 MergePool ==
   Concat([ty \in 1..4 |-> Concat([a \in 1..2 |->
       LET hs == SelectSeq(MergeHists(ty - 1, a = 2), LAMBDA h : HistOk(ty - 1, h)) IN [h \in 1..Len(hs) |-> MkR("res", ty - 1, a = 2, hs[h])]])])
+\* CHOICETYPE with one choice and with six (largest index only, first and last, never updated)
+MkRn(ty, acc, nch, hist) == [name |-> "res", type |-> ty, acc |-> acc, nch |-> nch, hist |-> hist]
+ChoicePool ==
+  Concat([a \in 1..2 |->
+     <<MkRn(CHOICET, a = 2, 1, <<>>), MkRn(CHOICET, a = 2, 1, <<U(Num("PyInt", 0, 1)), U(Num("NpInt64", 0, 1))>>),
+       MkRn(CHOICET, a = 2, 6, <<>>), MkRn(CHOICET, a = 2, 6, <<U(Num("PyInt", 5, 1))>>),
+       MkRn(CHOICET, a = 2, 6, <<U(Num("NpInt32", 5, 1)), U(Num("PyInt", 0, 1)), U(Num("PyInt", 5, 1))>>)>>])
 ResultPool ==
   Concat([ty \in 1..4 |-> Concat([a \in 1..2 |->
       LET hs == SelectSeq(Hists(AlphaOf(ty - 1)), LAMBDA h : HistOk(ty - 1, h)) IN [h \in 1..Len(hs) |-> MkR("res", ty - 1, a = 2, hs[h])]])])
   \o Concat([a \in 1..2 |-> [h \in 1..Len(NarrowAlpha) |-> MkR("res", SUMT, a = 2, <<NarrowAlpha[h]>>)]])
-  \o MergePool
+  \o MergePool \o ChoicePool
 
 \* ---- SimulationResults ----
 FalsyResSet ==
@@ -663,17 +712,22 @@ OrigPool    == <<NoneV, Str(""), Str("x_{num}.json")>>      \* original_filename
 Templates == << <<Lit("res_"), Par("num"), Lit("_"), Par("str")>>,
                 <<Lit("r("), Par("arr"), Lit(")_"), Par("num"), Lit("_x")>>,
                 <<Lit("plain")>>,
-                <<LitE("e{x}_", "e{{x}}_"), Par("str"), LitE("}", "}}")>> >>
+                <<LitE("e{x}_", "e{{x}}_"), Par("str"), LitE("}", "}}")>>,
+                <<Lit("m_"), Par("num"), Lit("_"), Par("absent")>>,                       \* names a parameter nobody has
+                <<Lit("t_"), Par("arr"), Lit("_"), Par("lst"), Lit("_"), Par("non"), Par("set"), Par("flt")>> >>  \* (rel) texts
 Exts == <<".json", ".pickle", "">>
 \* parameter objects stored in results: plain, with marks, and an unpacked child
 SParams == <<MkP(PBase[1], {}, -1, <<>>), MkP(PBase[1], {"arr", "lst"}, -1, <<>>),
              Child(MkP(PBase[1], {"arr", "lst"}, -1, <<>>), 3),
              MkP(PBase[2], {"arr"}, -1, <<>>), Child(MkP(PBase[2], {"arr", "str"}, -1, <<>>), 6),
              MkP(PBase[4], {}, -1, <<>>), Child(MkP(PBase[4], {"arr"}, -1, <<>>), 1),
-             Child(MkP(PBase[5], {"arr"}, -1, <<>>), 2), MkP(PBase[6], {"str"}, -1, <<>>)>>
+             Child(MkP(PBase[5], {"arr"}, -1, <<>>), 2), MkP(PBase[6], {"str"}, -1, <<>>),
+             \* parameters holding arrays that are not non-empty vectors (2-D, zero length), and (rel) texts
+             MkP(PBase[3], {}, -1, <<>>), Child(MkP(PBase[3], {"arr"}, -1, <<>>), 0), MkP(PBase[8], {"arr"}, -1, <<>>),
+             MkP(PMixed, {}, -1, <<>>)>>
 
 \* ---- file names ----
-FnPool == SelectSeq(ScalarPool, LAMBDA v : v.s # "" \/ IsNum(v))      \* the empty string is excluded
+FnPool == SelectSeq(ScalarPool, LAMBDA v : v.s # "" \/ IsNum(v) \/ IsBool(v))      \* the empty string is excluded
 FnTemplate == <<Lit("out_"), Par("num"), Lit("_end.json")>>
 
 (* ==================================== the star machine ========================================== *)
@@ -738,11 +792,12 @@ ResultCase ==
                      decRaises |-> ~Raises(t) /\ DecRRaises(t, Dev), back |-> b,
                      tree2 |-> IF ok THEN EncR(b, Dev) ELSE t, rel |-> RelR(st), req |-> ReqObject]
 
-\* the quick tier keeps one thirteenth of the product (every value of every pool, and every PAIR of values of the
+\* the quick tier keeps one forty-first of the product (every value of every pool, and every PAIR of values of the
 \* scalar-field pools with every extension, occurs: checked by QuickPairsCovered) plus two slices of special cases
 QuickKeep(p, r, u, cu, tp, e) ==
   IF Thorough THEN TRUE
-  ELSE IF (p + 2 * r + 3 * u + 5 * cu + 7 * tp + e) % 13 = 0 THEN TRUE
+  ELSE IF (p + 2 * r + 3 * u + 5 * cu + 7 * tp + e) % 41 = 0 THEN TRUE
+  ELSE IF p >= 10 /\ r = 1 /\ u = 1 /\ cu = 2 THEN TRUE          \* the array-shape / (rel) name contents with every template
   ELSE IF r >= 4 /\ tp = 1 /\ e = 1 /\ p = 1 THEN TRUE
   ELSE p = 3 /\ u = 1 /\ cu = 2 /\ tp = 1
 \* the selection is not accidental: each current_rep value and each runned_reps value meets each extension
@@ -772,10 +827,15 @@ ResultsCase ==
                ok == ~Raises(t) /\ ~DecSRaises(t, Dev)
                b  == IF ok THEN DecS(t, Dev) ELSE S
            IN  c' = [kind |-> "results", id |-> <<p, r, u, cu, tp, e>>, S |-> S, rd |-> ResSets[r],
-                     template |-> TemplateText(Templates[tp] \o <<Lit(Exts[e])>>), fname |-> FileName(tk, SParams[p]),
+                     template |-> TemplateText(Templates[tp] \o <<Lit(Exts[e])>>),
+                     relname |-> RelName(tk, SParams[p]),
+                     fname |-> IF RelName(tk, SParams[p]) THEN "" ELSE FileName(tk, SParams[p]),
+                     fnameRaises |-> Dev.FileNameFailsForNonVectorArray /\ HasNonVector(SParams[p]),
                      json |-> Exts[e] = ".json",
                      tree |-> t, encRaises |-> Raises(t), decRaises |-> ~Raises(t) /\ DecSRaises(t, Dev), back |-> b,
-                     tree2 |-> IF ok THEN EncS(b, Dev) ELSE t, rel |-> RelS(S), eqdef |-> EqDefinedP(SParams[p]), req |-> ReqFiles]
+                     tree2 |-> IF ok THEN EncS(b, Dev) ELSE t,
+                     rel |-> RelS(S) \cup (IF HasNonVector(SParams[p]) THEN {"FileNameFailsForNonVectorArray"} ELSE {}),
+                     eqdef |-> EqDefinedP(SParams[p]), req |-> ReqFiles]
 
 \* SimulationResults as a STRING only (never saved: original_filename None / "" / set by hand): the full product of
 \* the scalar-field pools, in every tier
@@ -817,7 +877,8 @@ HSaves == <<HOp("save", HT1, ".json", "", NoneV, HNoP), HOp("save", HT1, ".pickl
 HOthers == <<HOp("add", <<>>, "", "num", Num("PyInt", 7, 1), HNoP), HOp("setitem", <<>>, "", "num", Num("PyFloat", 1, 4), HNoP),
              HOp("add", <<>>, "", "str", Str("c{num}"), HNoP), HOp("add", <<>>, "", "zz", Num("PyInt", 1, 1), HNoP),
              HOp("setparams", <<>>, "", "", NoneV, HP1), HOp("upd", <<>>, "", "", Num("PyInt", 4, 1), HNoP),
-             HOp("cur", <<>>, "", "", Num("PyInt", 5, 1), HNoP), HOp("reload", <<>>, "", "", NoneV, HNoP)>>
+             HOp("cur", <<>>, "", "", Num("PyInt", 5, 1), HNoP), HOp("reload", <<>>, "", "", NoneV, HNoP),
+             HOp("mergeall", <<>>, "", "", NoneV, HNoP)>>      \* merge_all_results(deep copy of the object itself)
 HOps == HSaves \o HOthers
 SetParam(P, nm, v) == IF nm \in Names(P)
                       THEN [P EXCEPT !.params = [i \in 1..Len(P.params) |-> IF P.params[i].name = nm THEN PV(nm, v) ELSE P.params[i]]]
@@ -842,6 +903,10 @@ HStep(h, o) ==
          [h EXCEPT !.S.params = o.P, !.cache = <<>>, !.steps = Append(@, [op |-> o.op, template |-> "", name |-> "", cur |-> ""])]
     [] o.op = "upd" ->
          [h EXCEPT !.S.res = [i \in 1..Len(@) |-> [@[i] EXCEPT !.rs = [k \in 1..Len(@) |-> RUpd(@[k], U(o.val))]]],
+                   !.steps = Append(@, [op |-> o.op, template |-> "", name |-> "", cur |-> ""])]
+    [] o.op = "mergeall" ->
+         [h EXCEPT !.S.res = [i \in 1..Len(@) |-> [@[i] EXCEPT !.rs = [k \in 1..Len(@) |->
+                                  IF k = Len(@) THEN RMerge(@[k], @[k]) ELSE @[k]]]],
                    !.steps = Append(@, [op |-> o.op, template |-> "", name |-> "", cur |-> ""])]
     [] o.op = "cur" ->
          [h EXCEPT !.S.current = o.val.n, !.steps = Append(@, [op |-> o.op, template |-> "", name |-> "", cur |-> ""])]
@@ -876,7 +941,9 @@ SaveHistCase ==
 \*   - as separate objects and as the unpacked variations of one array parameter - then every file loaded and
 \*   compared with what was saved into it).
 \* Premise checked by the harness (machinery failure otherwise): the members are different machine numbers.
-FG(t, n, d, b10, e2, e10, ks) == [t |-> t, n |-> n, d |-> d, b10 |-> b10, e2 |-> e2, e10 |-> e10, ks |-> ks]
+FG(t, n, d, b10, e2, e10, ks) == [t |-> t, n |-> n, d |-> d, b10 |-> b10, b2 |-> 0, e2 |-> e2, e10 |-> e10, ks |-> ks]
+\* members n * 2^b2 + k * 2^e2 : the limits of a width are never formed by TLC, only named
+LG(t, n, b2, e2, ks) == [t |-> t, n |-> n, d |-> 1, b10 |-> 0, b2 |-> b2, e2 |-> e2, e10 |-> 0, ks |-> ks]
 FineGroups ==
   << FG("PyFloat", 0, 1, 0, 0, -13, <<1, 2, 4, 5>>),          \* 1e-13 2e-13 4e-13 5e-13
      FG("NpFloat64", 0, 1, 0, 0, -13, <<1, 2, 4>>),
@@ -894,6 +961,28 @@ FineGroups ==
      FG("NpFloat16", 1, 2, 0, -11, 0, <<0, 1>>),               \* adjacent float16
      FG("PyInt", 1, 1, 15, 0, 0, <<0, 1, 2, 10>>),             \* 10^15 + k
      FG("NpInt64", 9, 1, 17, 0, 0, <<0, 1, 7>>) >>             \* 9*10^17 + k
+\* VALUES AT THE LIMITS OF A WIDTH (rel): largest / smallest members of every integer width, Python ints beyond 64
+\* bits, largest finite and smallest subnormal floats of every float width, doubles needing 17 digits.  Required of the
+\* implementation for each group (as a scalar parameter, inside a list, a set and an array): RoundTripExact (the
+\* reloaded value IS the value, bit for bit), KindPreserved, TextIdempotent (second to_json = first), PickleExact.
+LimitGroups ==
+  << LG("NpUInt64", 1, 64, 0, <<-2, -1>>), LG("NpUInt64", 1, 63, 0, <<0, 1>>), LG("NpInt64", -1, 63, 0, <<0, 1>>),
+     LG("NpInt64", 1, 63, 0, <<-2, -1>>), LG("NpInt32", -1, 31, 0, <<0, 1>>), LG("NpInt32", 1, 31, 0, <<-2, -1>>),
+     LG("NpUInt32", 1, 32, 0, <<-2, -1>>), LG("NpInt16", -1, 15, 0, <<0, 1>>), LG("NpUInt16", 1, 16, 0, <<-2, -1>>),
+     LG("NpInt8", -1, 7, 0, <<0, 1>>), LG("NpInt8", 1, 7, 0, <<-2, -1>>), LG("NpUInt8", 1, 8, 0, <<-2, -1>>),
+     LG("PyInt", 1, 100, 0, <<-1, 0, 1>>), LG("PyInt", -1, 70, 0, <<0, 1>>), FG("PyInt", 1, 1, 30, 0, 0, <<0, 1>>),
+     LG("PyInt", 1, 63, 0, <<-1, 0>>),
+     LG("NpFloat32", 0, 0, 104, <<16777214, 16777215>>), LG("NpFloat32", 0, 0, -149, <<1, 2>>),
+     LG("NpFloat16", 0, 0, 5, <<2046, 2047>>), LG("NpFloat16", 0, 0, -24, <<1, 3>>),
+     LG("PyFloat", 0, 0, 993, <<2147483646, 2147483647>>), LG("PyFloat", 0, 0, -1074, <<1, 2, 3>>),
+     LG("NpFloat64", 0, 0, 993, <<2147483646, 2147483647>>), LG("NpFloat64", 0, 0, -1074, <<1, 2>>),
+     FG("PyFloat", 3, 10, 0, -54, 0, <<0, 1, 2>>), FG("NpFloat64", 1, 3, 0, -54, 0, <<0, 1>>) >>
+LimitCase ==
+  /\ c.kind = "init" /\ Family = "fname"
+  /\ \E g \in 1..Len(LimitGroups) :
+        /\ Pick(g)
+        /\ c' = [kind |-> "limit", id |-> <<g>>, group |-> LimitGroups[g],
+                 req |-> {"RoundTripExact", "KindPreserved", "TextIdempotent", "PickleExact"}]
 FineTemplate == <<Lit("fine_"), Par("num"), Lit("_end")>>
 FineCase ==
   /\ c.kind = "init" /\ Family = "fname"
@@ -914,7 +1003,7 @@ FileNameCase ==
                      n1 |-> FileName(FnTemplate, P1), n2 |-> FileName(FnTemplate, P2)]
 
 Init == c = [kind |-> "init"]
-Next == ValueCase \/ ParamsCase \/ ResultCase \/ ResultsCase \/ FieldsCase \/ SaveHistCase \/ FileNameCase \/ FineCase
+Next == ValueCase \/ ParamsCase \/ ResultCase \/ ResultsCase \/ FieldsCase \/ SaveHistCase \/ FileNameCase \/ FineCase \/ LimitCase
 Emit == EmitCase(c')
 
 (* ==================================== the laws ================================================== *)
@@ -924,6 +1013,7 @@ IsS == c.kind \in {"results", "fields"}
 Coded == IsP \/ IsR \/ IsS
 
 EncodeTotal == Coded => ~c.encRaises
+FileNameTotal == c.kind = "results" => ~c.fnameRaises      \* a file name exists for every supported parameter set
 DecodeTotal == (IsR \/ IsS) => ~c.decRaises
 RoundTripEq ==
   /\ IsP => PEq(c.back, c.P)
@@ -963,7 +1053,7 @@ FileNameInjective ==
   c.kind = "fname" => ((Kind(c.v1) = "Str") = (Kind(c.v2) = "Str") /\ ~LibEq(c.v1, c.v2) => c.n1 # c.n2)
 FileNameFunctional ==
   c.kind = "fname" => (Faithful(c.v1, c.v2) => c.n1 = c.n2)
-TypeOK == c.kind \in {"init", "value", "params", "result", "results", "fields", "savehist", "fname", "fine"}
+TypeOK == c.kind \in {"init", "value", "params", "result", "results", "fields", "savehist", "fname", "fine", "limit"}
 \* every save of a history goes to the name the template has for the parameters as they are at that moment, and
 \* what the saved files hold round-trips (the JSON ones through Enc / Dec)
 SaveNameIsCurrent == c.kind = "savehist" => \A k \in 1..Len(c.steps) : c.steps[k].op = "save" => c.steps[k].name = c.steps[k].cur
@@ -971,5 +1061,5 @@ SavedFilesRoundTrip ==
   c.kind = "savehist" => \A k \in 1..Len(c.files) : \A i \in 1..Len(c.files[k]) :
      LET S == c.files[k][i].S IN SFaithful(DecS(EncS(S, Dev), Dev), S)
 \* members of a fine group are pairwise different numbers (k strictly increasing on one scale)
-FinePoolOk == c.kind = "fine" => \A i \in 1..Len(c.group.ks) - 1 : c.group.ks[i] < c.group.ks[i + 1]
+FinePoolOk == c.kind \in {"fine", "limit"} => \A i \in 1..Len(c.group.ks) - 1 : c.group.ks[i] < c.group.ks[i + 1]
 =============================================================================
